@@ -1,11 +1,12 @@
 #!/bin/bash
 # Runs every seeded breaking change under /verif/seeded through tools/seedcheck.py (quick tier)
-# and prints one line per variant. usage: tools/seedsweep.sh [parallel] [seed]
+# and prints one line per variant. usage: tools/seedsweep.sh [parallel] [seed] [--fast]
 cd "$(dirname "$0")/.."
 par=${1:-4}
 export VERIF_SEED=${2:-1}
+export SEEDCHECK_FLAGS=${3:-}
 mkdir -p .work/seedsweep
-ls -d seeded/C*/* | xargs -P "$par" -I{} sh -c 'id=$(echo {} | cut -d/ -f2); v=$(echo {} | cut -d/ -f3); tools/seedcheck.py $id {} quick > .work/seedsweep/$id-$v.json 2>&1'
+ls -d seeded/C*/* | xargs -P "$par" -I{} sh -c 'id=$(echo {} | cut -d/ -f2); v=$(echo {} | cut -d/ -f3); tools/seedcheck.py $id {} quick $SEEDCHECK_FLAGS > .work/seedsweep/$id-$v.json 2>&1'
 python3 - <<'PY'
 import json, glob
 rows = []
